@@ -22,7 +22,65 @@ fn supplied<T: MaybeDynSized<Header = HeaderTagHeader> + ?Sized>(t: &T) -> Vec<u
 const LOOK_BASE: usize = 1 << 24;
 const LOOK: [u32; 4] = [0, 8, 16, 0xE852_50D6];
 
+/// Content seeds from REAL_BASE on select realistic contents (values as real kernels put them into their headers):
+/// code % 2 = flag, code / 2 = variant.
+const REAL_BASE: usize = 1 << 25;
+const REAL_VARIANTS: [usize; NSLOTS] = [4, 3, 2, 2, 4, 1, 1, 2, 2, 3];
+
 fn call(b: Builder, m: &mut Vec<Option<Vec<u8>>>, slot: usize, c: usize) -> Builder {
+    if c >= REAL_BASE {
+        let code = c - REAL_BASE;
+        let fl = if code % 2 == 0 { HeaderTagFlag::Required } else { HeaderTagFlag::Optional };
+        let v = (code / 2) % REAL_VARIANTS[slot];
+        return match slot {
+            0 => {
+                let lists: [&[u32]; 4] = [&[1, 6, 8], &[4, 6, 17, 18, 19, 20], &[11, 12, 14, 15], &[9, 3, 2, 1, 5, 7, 10, 13, 16, 21]];
+                let reqs: Vec<MbiTagTypeId> = lists[v].iter().map(|&x| MbiTagTypeId::new(x)).collect();
+                let t = InformationRequestHeaderTag::new(fl, &reqs);
+                m[slot] = Some(supplied(&*t));
+                b.information_request_tag(t)
+            }
+            1 => {
+                let a = [(0x10_0000u32, 0x10_0000u32, 0x20_0000u32, 0x30_0000u32), (0x10_0010, 0x10_0000, 0, 0), (0x10_0000, 0xFFFF_FFFF, 0, 0)][v];
+                let t = AddressHeaderTag::new(fl, a.0, a.1, a.2, a.3);
+                m[slot] = Some(supplied(&t));
+                b.address_tag(t)
+            }
+            2 => {
+                let t = EntryAddressHeaderTag::new(fl, [0x10_0000, 0x10_1000][v]);
+                m[slot] = Some(supplied(&t));
+                b.entry_tag(t)
+            }
+            3 => {
+                let t = ConsoleHeaderTag::new(fl, [ConsoleHeaderTagFlags::ConsoleRequired, ConsoleHeaderTagFlags::EgaTextSupported][v]);
+                m[slot] = Some(supplied(&t));
+                b.console_tag(t)
+            }
+            4 => {
+                let f = [(80u32, 25u32, 0u32), (640, 480, 32), (1024, 768, 32), (0, 0, 0)][v];
+                let t = FramebufferHeaderTag::new(fl, f.0, f.1, f.2);
+                m[slot] = Some(supplied(&t));
+                b.framebuffer_tag(t)
+            }
+            7 => {
+                let t = EntryEfi32HeaderTag::new(fl, [0x10_0000, 0x10_1000][v]);
+                m[slot] = Some(supplied(&t));
+                b.efi_32_tag(t)
+            }
+            8 => {
+                let t = EntryEfi64HeaderTag::new(fl, [0x10_0000, 0x10_1000][v]);
+                m[slot] = Some(supplied(&t));
+                b.efi_64_tag(t)
+            }
+            9 => {
+                let r = [(0x10_0000u32, 0xFFFF_FFFFu32, 4096u32, RelocatableHeaderTagPreference::None), (0x20_0000, 0x3FFF_FFFF, 0x20_0000, RelocatableHeaderTagPreference::High), (0, 0x10_0000, 4096, RelocatableHeaderTagPreference::Low)][v].clone();
+                let t = RelocatableHeaderTag::new(fl, r.0, r.1, r.2, r.3);
+                m[slot] = Some(supplied(&t));
+                b.relocatable_tag(t)
+            }
+            _ => call(b, m, slot, code % 2),
+        };
+    }
     if c >= LOOK_BASE {
         let code = c - LOOK_BASE;
         let fl = if code % 2 == 0 { HeaderTagFlag::Required } else { HeaderTagFlag::Optional };
@@ -265,16 +323,18 @@ fn run(ctx: &mut Ctx) {
             });
         }
     }
-    ctx.bound("contents", "information-request lists of length 0..=24, 255..=257, 16383, 16384; every content seed 0..=11 of every slot (all flag / console / preference variants) between two other tags");
+    ctx.bound("contents", "information-request lists of length 0..=24, 255..=257, 16383, 16384; every content seed 0..=11 of every slot (all flag / console / preference variants) between two other tags, both architectures");
     for slot in 0..NSLOTS {
         for c in (0..=(if slot == 0 { 24 } else { 11 })).chain(if slot == 0 { vec![255usize, 256, 257, 16383, 16384] } else { vec![] }) {
-            let prog = vec![(1usize, 0usize), (slot, c), (9, 2)];
-            let describe = || J::obj().set("part", "contents").set("slot", SLOT_NAMES[slot]).set("content_seed", c);
-            ctx.leaf(describe, |ctx| {
-                ctx.state_direct();
-                ctx.nontrivial();
-                run_program(ctx, 0, &prog, &|| format!("contents {} seed {}", SLOT_NAMES[slot], c));
-            });
+            for arch in [0u32, 4] {
+                let prog = vec![(1usize, 0usize), (slot, c), (9, 2)];
+                let describe = || J::obj().set("part", "contents").set("slot", SLOT_NAMES[slot]).set("content_seed", c).set("architecture", arch);
+                ctx.leaf(describe, |ctx| {
+                    ctx.state_direct();
+                    ctx.nontrivial();
+                    run_program(ctx, arch, &prog, &|| format!("contents {} seed {} arch {}", SLOT_NAMES[slot], c, arch));
+                });
+            }
         }
     }
     ctx.bound("lookalike_contents", "every slot with 32-bit fields: all field combinations over {0, 8, 16, 0xE85250D6} (information requests: all lists of length 0..=4 over those ids, 0 = End and 8 = Framebuffer), both flags, with the tag alone (so it is the last tag before the end tag), before a module-align tag and after an information request; tag bytes that look like an end tag, a tag header or the magic must neither end the built header early nor stop it loading");
@@ -307,6 +367,30 @@ fn run(ctx: &mut Ctx) {
                     ctx.nontrivial();
                     run_program(ctx, (code as u32 % 2) * 4, &prog, &|| format!("look-alike contents {} code {} shape {}", SLOT_NAMES[slot], code, shape));
                 });
+            }
+        }
+    }
+    // realistic contents, two tags at a time: what one tag says must not change what happens to another
+    ctx.bound("realistic_pairs", "every pair of slots x every combination of their realistic contents (information requests incl. the EFI types, typical load / entry addresses, both console flags, framebuffer 80x25x0 / 640x480x32 / 1024x768x32 / 0x0x0, three relocation requests) x both flags each x both architectures x both call orders");
+    for a in 0..NSLOTS {
+        for b2 in a + 1..NSLOTS {
+            for ca in 0..2 * REAL_VARIANTS[a] {
+                for cb in 0..2 * REAL_VARIANTS[b2] {
+                    for arch in [0u32, 4] {
+                        for rev in [false, true] {
+                            let mut prog = vec![(a, REAL_BASE + ca), (b2, REAL_BASE + cb)];
+                            if rev {
+                                prog.reverse();
+                            }
+                            let describe = || J::obj().set("part", "realistic_pairs").set("first", format!("{}#{}", SLOT_NAMES[prog[0].0], prog[0].1 - REAL_BASE)).set("second", format!("{}#{}", SLOT_NAMES[prog[1].0], prog[1].1 - REAL_BASE)).set("architecture", arch);
+                            ctx.leaf(describe, |ctx| {
+                                ctx.state_direct();
+                                ctx.nontrivial();
+                                run_program(ctx, arch, &prog, &|| format!("realistic pair {:?} arch {}", prog.iter().map(|p| (SLOT_NAMES[p.0], p.1 - REAL_BASE)).collect::<Vec<_>>(), arch));
+                            });
+                        }
+                    }
+                }
             }
         }
     }
